@@ -11,6 +11,7 @@ import DaskModel.Model.ArgNd
 import DaskModel.Model.TsqrPlanIO
 import DaskModel.Model.MaskedRedIO
 import DaskModel.Model.ArrayExprNdIO
+import DaskModel.Model.ChunkPercentileIO
 open Dask
 
 namespace ReduceDriver
@@ -539,5 +540,6 @@ def table : List (String × Handler) := [
   ("aeeval", ReduceDriver.hAeEval), ("aestep", ReduceDriver.hAeStep)]
   ++ Dask.TsqrPlanIO.handlers ++ Dask.ArrayExprNdIO.handlers
   ++ Dask.MaskedRedIO.handlers
+  ++ Dask.ChunkPercentileIO.handlers
 
 def main : IO Unit := runDriver table
